@@ -16,6 +16,7 @@ import re
 from ..astutil import calls_in, call_name, where, kw, atoms_of
 from ..cfg import build_cfg, enclosing_handlers
 from ..dataflow import private_closure
+from ..logic import reach_avoiding
 from ..symtext import Expander, effect_calls
 from .c04 import _id_shape
 from ..fold import Folder, format_tables
@@ -120,7 +121,7 @@ def run(prog, rep):
                        "_version_map values, the renamed tag and created tags are 1.1 Property keys")
     levels = {}
     for e in removes:
-        tabs_used = [m.group(2) for t, p in e.guards() if not p for m in [re.match(r"^(.+)\.tag in (\w+)\.arguments_keys$", t)] if m]
+        tabs_used = [m.group(2) for t, p in e.guards() if not p for m in [re.match(r"^(.+)\.tag in (?:\w+\.)?(\w+)\.arguments_keys$", t)] if m]
         if not tabs_used:
             continue
         cont = unparse(e.call.func.value)
@@ -149,7 +150,7 @@ def run(prog, rep):
         if m2:
             good = ("%s.tag in %s._version_map" % (m2.group(1), hv.params[0]), True) in gs
         elif m1:
-            good = ("%s.tag in Property.arguments_keys" % m1.group(1), True) in gs
+            good = any(p0 and re.match(r"^%s\.tag in (?:\w+\.)?Property\.arguments_keys$" % re.escape(m1.group(1)), t0) for t0, p0 in gs)
         else:
             good = False
         rep.check(good, "TAB-11", "_handle_value exports %s under its table test" % tag[:50], "ok",
@@ -179,9 +180,12 @@ def run(prog, rep):
     g = build_cfg(ai)
     app = [n for n in g.nodes if n.kind == "stmt" and isinstance(n.ast, ast.Expr) and isinstance(n.ast.value, ast.Call) and is_append(n.ast.value)
            and unparse(n.ast.value.func.value) == ai.params[0] and isinstance(n.ast.value.args[0], ast.Name)]
-    rep.check(len(app) == 1 and all(g.dominates(app[0], p) for _, p in g.exit.pred), "PROV-8", "_add_id always appends an id", "ok",
+    app_ids = set(n.id for n in app)
+    always = bool(app) and len(set(n.ast.value.args[0].id for n in app)) == 1 and \
+        not reach_avoiding(g, g.entry, g.exit, lambda s0, k0, d0: d0.id in app_ids, skip_kinds=("exc",))
+    rep.check(always, "PROV-8", "_add_id always appends an id", "ok",
               "some path through _add_id appends no id element", ai.where, witness="an element without id in the output")
-    if len(app) == 1:
+    if app:
         nv = app[0].ast.value.args[0].id
         stores = [n for n in g.nodes if n.kind == "stmt" and isinstance(n.ast, ast.Assign) and unparse(n.ast.targets[0]) == "%s.text" % nv]
         shapes = [(_id_shape(n.ast.value), n) for n in stores]
@@ -193,10 +197,11 @@ def run(prog, rep):
         rep.check(bool(fresh) and bool(parse) and not other and in_try, "PROV-8", "_add_id normalises or replaces", "ok",
                   "_add_id no longer (fresh uuid4 | str(uuid.UUID(old)) under except ValueError): %s" % [unparse(n.ast) for n in stores], ai.where,
                   witness="a malformed id is kept / a valid one replaced")
-        rep.check(bool(fresh) and g.dominates(fresh[0], app[0]), "PROV-8", "the fresh id is prepared before any branch", "ok",
+        rep.check(bool(fresh) and all(g.dominates(fresh[0], a0) for a0 in app), "PROV-8", "the fresh id is prepared before any branch", "ok",
                   "the fresh uuid is not assigned on every path before appending", ai.where)
     ca = vc.lookup_method("_check_add_ids")
-    args = [unparse(e.call.args[0]) for e in effect_calls(prog, ca, lambda c: isinstance(c.func, ast.Attribute) and c.func.attr == "_add_id" and len(c.args) == 1)]
+    args = [unparse(e.call.args[0]) for e in effect_calls(prog, ca, lambda c: isinstance(c.func, ast.Attribute) and c.func.attr == "_add_id" and len(c.args) == 1,
+                                                           expanded=True)]
     good = any(a.endswith(".getroot()") for a in args) and any(re.search(r"^EACH\(.*\.iter\('section'\)\)$", a) for a in args) \
         and any(re.search(r"^EACH\(.*\.iter\('property'\)\)$", a) for a in args)
     rep.check(good, "PROV-8", "ids are handled for root, Sections and Properties", str(args),
